@@ -48,8 +48,8 @@ func c20CheckKey(c *vk.Case, k string) {
 }
 
 func runC20(r *vk.Run) {
-	maxLen := r.N(4, 5)
-	r.SetRule("phase enum: every non-empty string of length<=L over the 12-symbol alphabet {a,Z,0,9,_,.,-,/,space,é,世,0xFF} (L=4 quick, 5 thorough) through KeyToLabel; " +
+	maxLen := r.N(4, 6)
+	r.SetRule("phase enum: every non-empty string of length<=L over the 12-symbol alphabet {a,Z,0,9,_,.,-,/,space,é,世,0xFF} (L=4 quick, 6 thorough) through KeyToLabel; " +
 		"non-trivial = the key is not already a valid label name (distinct keys counted). phase docker: random inventories whose containers carry Docker label k=v, " +
 		"selector {sanitised(k)=\"v\"} (sanitised by the harness's own model) must open exactly the containers carrying it. phase json: key k of a JSON line must appear as label sanitised(k) after bare `| json`.")
 	r.Assume("label-name validity is [A-Za-z_][A-Za-z0-9_]*", "leading digit may be replaced or '_'-prefixed (suite pins prefix)",
@@ -96,7 +96,7 @@ func runC20(r *vk.Run) {
 	})
 
 	// random longer keys, incl. arbitrary bytes
-	r.Phase("random", r.N(2000, 50000), func(c *vk.Case) {
+	r.Phase("random", r.N(2000, 2000000), func(c *vk.Case) {
 		var k string
 		if c.Rng.Chance(1, 3) {
 			k = string(c.Rng.Bytes(c.Rng.Range(1, 24)))
@@ -111,7 +111,7 @@ func runC20(r *vk.Run) {
 	})
 
 	// selection through the Docker storage
-	r.Phase("docker", r.N(1500, 40000), func(c *vk.Case) {
+	r.Phase("docker", r.N(1500, 600000), func(c *vk.Case) {
 		rng := c.Rng
 		nc := rng.Range(2, 6)
 		vals := []string{"v", "v1", "", "x y", "v\"q", "é"}
@@ -189,7 +189,7 @@ func runC20(r *vk.Run) {
 	})
 
 	// JSON keys through bare `| json`
-	r.Phase("json", r.N(1500, 40000), func(c *vk.Case) {
+	r.Phase("json", r.N(1500, 600000), func(c *vk.Case) {
 		rng := c.Rng
 		var k string
 		for tries := 0; ; tries++ {
